@@ -13,7 +13,7 @@ the length of the plans and of the driver script (co-inductive closure at joint 
 import os
 
 from .lib import *
-from pyvc.bisim import Bisim, reference_module, ABS_EXC
+from pyvc.bisim import Bisim, reference_module, ABS_EXC, ABS_BASE_EXC
 
 PROP = "C22"
 MP = "bluesky.preprocessors"
@@ -52,7 +52,9 @@ def callable_pair(b, name):
 
 def setup(I, name, cfg):
     cfg = dict(cfg, module=MP, ref_file=REF_FILE)
-    b = Bisim(I, name, replay="generators.script", cfg=cfg)
+    # (exceptions thrown in: an Exception, and a BaseException that is neither an Exception nor a GeneratorExit - Python's
+    # `except Exception` must not see the latter, `finally` must)
+    b = Bisim(I, name, replay="generators.script", cfg=cfg, throw_classes=[ABS_EXC, ABS_BASE_EXC])
     ref = reference_module(I.P, "verif_ref_c22", REF)
     return b, ref
 
